@@ -15,17 +15,19 @@ CONFIG = {
         "modelled, not verified: protoreflect Has/Set/Mutable/Append (CodecTypes), the reflector's ClientProperties (environment dumped from the real reflector), strconv integer functions, encoding/base64, time, fmt, shopspring/decimal NewFromString/String (lib/Decimal.v) — each with its own correspondence stream",
     ],
     "assumptions": [
-        "model/CodecEnc.v (encoder) and model/CodecEncDec.v (decoder acting on a JSON tree) are hand-written models of internal/codec and lib/j5reflect; both are compared with the real codec on every generated (schema, message) pair of the run (CRound: encode, then decode of the real output, message for message)",
+        "model/CodecEnc.v (encoder) and model/CodecEncDec.v (decoder acting on a JSON tree) are hand-written models of internal/codec and lib/j5reflect; both are compared with the real codec on the generated (schema, message) pairs of the run (CRound: encode, then decode of the real output, message for message; the same case also evaluates the decoder family's Go-tied token-level model CodecDec.decode_bytes on the document and demands the same message). Documents over 2600 bytes are checked by the direct oracle only (model_skipped_large_document); messages holding a protobuf Any only check that both sides refuse them under the default codec",
+        "the decoder in the theorems is CodecEncDec.decode_tree, this family's tree-level model of decoder.go; no lemma connects it to the decoder family's CodecDec / CodecDecTree — the link is the per-case cross-check above, on encoder output only",
+        "schemas of the run: 5 compiled message types of /repo's test schema and 3 messages of one hand-built dynamic descriptor file (verif.wide.v1: every scalar kind, arrays/maps of scalars, enums, objects and oneofs, flatten, exposed oneof, Any); schemas are NOT generated randomly and none comes from compiling generated j5s text — the theorem quantifies over all environments, the tie to Go does not",
         "representable = valid UTF-8, finite floats, defined enum numbers, years 0001-9999 with real calendar days, timestamps 0001-9999 with nanos in [0, 1e9), decimals accepted by decimal.NewFromString with exponent within +-1000",
-        "equality of the decoded message: exact, except decimals (normalised text, numerically equal), empty flattened sub-objects (absent), Any values (type name and payload)",
+        "equality of the decoded message: exact, except decimals (normalised text; dec_parse of both texts succeeds and the values are numerically equal, lib/Decimal.v dec_normalise_numeric), empty flattened sub-objects (absent), Any values (type name and payload)",
     ],
     "mult_search": 3,
     "refuted": [],
-    "partial": ["C01_codec_roundtrip is conditional on 'encode = Ok txt' (C01_full_statement also asserts that encoding a representable message succeeds; checked by the direct oracle on every generated message, not yet proved); protobuf Any values are outside rep_value (they decode only with WithProtoToAny)"],
+    "partial": ["C01_full_statement (Definition, not proved): C01_codec_roundtrip is conditional on 'encode = Ok txt' (C01_full_statement also asserts that encoding a representable message succeeds; checked by the direct oracle on every generated message, not yet proved); protobuf Any values are outside rep_value (they decode only with WithProtoToAny)"],
 }
 
 MANIFEST = {
     "text": "Theorems over Gallina models of the J5 JSON encoder and decoder. Structural round trip (C01_codec_roundtrip), for all schema environments and all representable messages: if encode m = Ok txt then txt parses (strict RFC 8259 reader) to a tree J, and decoding J into a fresh message (decodeObjectInner / decodeOneofInner / decodeValue arms / decodeAny / CreateField with its already-set and oneof-conflict guards / protoreflect Set-Mutable-Append through the presence algebra, flattened paths and exposed oneofs included) succeeds within the decoder's nesting bound and yields a message equal to m property by property (decimals as normalised text, Any as type + JSON payload, empty flattened sub-message = absent, maps in encoder order); proved by strong induction on encoder fuel with a message/path algebra and a loop invariant over the leaf properties. Scalar layer: for every scalar kind and every value of its documented domain the printed token is read back by the matching arm of scalarReflectFromGo to the same value (integers over Z with the int32/int64/uint32/uint64 ranges, strings through appendString and the strict JSON reader, bytes through padded std base64 and the lenient decoder, timestamps through RFC3339Nano formatting and the RFC 3339 fast path for all instants of years 0001-9999 — proleptic Gregorian calendar round trip proved for every day —, dates through %04d-%02d-%02d and DateFromString, decimals to their normalised text). Tied to the code by re-reading the Go switch tables and by a round-trip correspondence stream (real encode, real decode, both models) on generated messages of fixed and dynamically built descriptors; a direct round-trip oracle compares decode(encode m) with m on the real code.",
-    "note": "The float law of strconv and 'time.Parse extends its RFC 3339 fast path' are explicit premises (exercised every run). protobuf Any values with a proto payload decode only with the WithProtoToAny option (the oracle uses it for such messages). Message nesting beyond 10000 property levels encodes but is refused by the decoder (documented bound).",
+    "note": "The message-level theorem is conditional on the encoder succeeding (success for every representable message is observed by the direct oracle, not proved) and is stated over this family's own decoder model (cross-checked per case against the decoder family's model, not proved equal). Generated inputs range over 8 fixed message types, not over generated schemas. The float law of strconv and 'time.Parse extends its RFC 3339 fast path' are explicit premises (exercised every run). protobuf Any values with a proto payload decode only with the WithProtoToAny option (the oracle uses it for such messages). Message nesting beyond 10000 property levels encodes but is refused by the decoder (documented bound).",
     "technique": "Rocq/Coq proof (radix and calendar round trips, the latter by exhaustive evaluation of one 400-year era lifted to all days; print/parse inverses) + in-Coq differential correspondence of encoder and decoder models against the real codec + direct round-trip oracle",
 }
